@@ -305,6 +305,23 @@ def gen_valid(g):
 def gen_mismatch(g):
     ctx, drv, thorough, r, cat, names, phase = g.ctx, g.drv, g.thorough, g.r, g.cat, g.names, g.phase
     cases = []
+    # the slice fast path at every memory phase: arrays of fixed-width elements, both byte orders, with and without padding
+    # between length and first element, requested as Cow<[E]> (borrowed when aligned in memory), &[u8], Vec<E>
+    for name, sig, size in (("Cow[u8]", "ay", 1), ("&[u8]", "ay", 1), ("Cow[u16]", "aq", 2), ("Cow[u32]", "au", 4), ("Cow[u64]", "at", 8),
+                            ("Cow[i64]", "ax", 8), ("at", "at", 8), ("ad", "ad", 8), ("aq", "aq", 2), ("ai", "ai", 4), ("ax", "ax", 8)):
+        for bo in ("le", "be"):
+            for off in (0, 4):
+                content = bytes((17 * i + 1) % 256 for i in range(2 * size))
+                enc = u32(bo, len(content))
+                enc += b"\x00" * ((-(off + len(enc))) % size)
+                enc += content
+                data = bytes([0xEE] * off) + enc
+                for ph in range(8):
+                    cases.append(Case("valid", "UT %s %s %d %d 0 %s" % (name, bo, ph, off, hx(data)), len(data), expect="ok",
+                                      model=("UT %s %s %d 0 0 %s" % (name, bo, off, hx(data))) if name in cat else None, note="slice matrix"))
+                    if off == 0:
+                        cases += body_cases("valid", name, sig, bo, 0, data, ph, ["get"], expect="ok", expect_get="ok")
+
     # ---- B: the requested type does not fit the body signature (which is valid): every type against related signatures
     for ty in names:
         t = wg.parse_ext(ty) if ty in cat else wg.parse_ext(EXTRA[ty][1][0])
